@@ -101,6 +101,12 @@ func calleeMatches(full, pat string) bool {
 			return true
 		}
 	}
+	// Type.method names a method of (a pointer to) that type:  muxer.handleRequest ~ (*pkg/path.muxer).handleRequest
+	if t, m, ok := strings.Cut(pat, "."); ok && !strings.ContainsAny(t, "/()") && !strings.ContainsAny(m, "./()") {
+		if strings.HasSuffix(full, "."+t+")."+m) || strings.HasSuffix(full, "/"+t+")."+m) {
+			return true
+		}
+	}
 	short := strings.ReplaceAll(full, modulePath+"/internal/", "")
 	short = strings.ReplaceAll(short, modulePath+"/", "")
 	return short == pat || strings.HasSuffix(full, "."+pat) || strings.HasSuffix(full, ")."+pat)
